@@ -13,6 +13,7 @@ import (
 	bs "github.com/danthegoodman1/bloomsearch"
 
 	"verif/hstore"
+	"verif/refmodel"
 )
 
 // E3 — every fault position of a history (C06 flush path, C13 merge path).
@@ -384,8 +385,17 @@ func c13Run(v c13variant, targets map[int]bool, iterFail int) (findings []Findin
 			}
 		}
 		for _, p := range newPtrs {
-			if _, ok := data.Bytes(p); !ok {
+			b, ok := data.Bytes(p)
+			if !ok {
 				findings = append(findings, fnd("c13-output-missing", "%s: committed output %s is not in the DataStore", label, p))
+				continue
+			}
+			// "commits only durable output": a committed output is a complete file (a reader that
+			// holds only the pointer — a directory scan, an external MetaStore — must be able to use it)
+			if _, _, err := bs.ReadFileMetadata(bytes.NewReader(b)); err != nil {
+				findings = append(findings, fnd("c13-output-incomplete", "%s: committed output %s is not a complete file: %v", label, p, err))
+			} else if _, err := refmodel.ParseFile(b); err != nil {
+				findings = append(findings, fnd("c13-output-incomplete", "%s: committed output %s does not parse by FILE_FORMAT.md: %v", label, p, err))
 			}
 		}
 		tombFailed := false
@@ -579,7 +589,7 @@ func init() {
 	}
 	modes["C13"] = ModeSpec{
 		Cases: c13Cases,
-		Rule:  "Merge over 3-4 files in 1-2 merge groups is re-run with a failure at every store call position of every kind (iterator position, CreateFile, OpenFile, Seek, Read, Write, Close, Abort, Update, TombstoneFile), singly and (thorough) in pairs; committed-xor-unchanged oracle on MetaStore, DataStore, call log, return values and query answers; plus the single-flight scenario with a Merge held inside CreateFile",
+		Rule:  "Merge over 3-4 files in 1-2 merge groups is re-run with a failure at every store call position of every kind (iterator position, CreateFile, OpenFile, Seek, Read, Write, Close, Abort, Update, TombstoneFile), singly and (thorough) in pairs; committed-xor-unchanged oracle on MetaStore, DataStore, call log, return values and query answers; committed outputs must be complete, independently parseable files; plus the single-flight scenario with a Merge held inside CreateFile",
 	}
 }
 
